@@ -176,6 +176,7 @@ def tests(tier):
             body,
             {"quick": 60, "thorough": 30000},
             factors=model.leaf_shapes(),
+            fuzz={"thorough": 60000},
         ),
-        TestSpec("type-twins", gen_twins, body, {"quick": 600, "thorough": 60000}, tape=256),
+        TestSpec("type-twins", gen_twins, body, {"quick": 600, "thorough": 60000}, tape=256, fuzz={"thorough": 40000}),
     ]
